@@ -129,7 +129,7 @@ func init() {
 		Explanation: "UNIT over render3d/light.go, focus_point.go and material.go: points sampled on area lights are a light's point plus length-valued offsets (a unit direction must be scaled by a radius or length before it is added), areas used for emission and part selection are lengths squared, focus-point tests compare like with like.",
 		Trusted:     unitTrusted,
 		Assumptions: []string{"model coordinates are lengths; random numbers are dimensionless fractions"},
-		Fixtures:    []string{"u"},
+		Fixtures:    []string{"u", "f"},
 		Run: func(c *Ctx) {
 			pkgs := c.unitPkgs("u")
 			c.runUnits("UNIT", pkgs, c.fileFilter("render3d/light.go", "render3d/focus_point.go", "render3d/material.go"))
@@ -144,6 +144,9 @@ func init() {
 			// area-proportional selection of a triangle / sub-light
 			c.runCumTab("CUMTAB", c.libPkgs()[3:4], nil)
 			c.floor("CUMTAB", 2)
+			// a cumulative table has an entry for every light / triangle
+			c.runFill("FILL", append(c.libPkgs()[3:4:4], c.fixturePkg("f")), c.fileFilter("render3d/light.go", "render3d/material.go"))
+			c.floor("FILL", 0)
 		},
 		SelfTest: []Mutation{
 			{Name: "mixture sampler compares the draw with each probability alone", File: "render3d/material.go",
